@@ -29,6 +29,7 @@ P = ScenarioProperty(
         "cap": (8, 12),
         "sprouty": True,
         "level_limit_min": 2,
+        "families": ["sphere", "rastrigin", "step", "linear", "constant", "abssum", "twobasin", "offset", "nanhole"],
         "gsc_kinds": ["MetaepochLimit", "SingularProblemEvalLimitReached", "FitnessEvalLimitReached", "AllStopped", "NoActiveNonrootDemes", "RootStopped", "Never", "Never", "Never"],
     },
     lambda sc: [C06Checker(sc)],
